@@ -119,7 +119,7 @@ def gen_text(rng, cls="plain", max_measures=6):
         desc = rng.choice(["", "Evening", "a b", "K. Ward"])
         diff = rng.choice(["Beginner", "Easy", "Medium", "Hard", "Challenge", "Edit"])
         meter = str(rng.randint(1, 30))
-        radar = ",".join(rng.choice(["0", "0.5", "1.000", "0.733800"]) for _ in range(5))
+        radar = ",".join(rng.choice(["0", "0.5", "1.000", "0.733800"]) for _ in range(rng.choice([5, 5, 5, 10, 14])))  # StepMania 5 writes more than five
         charts.append(dict(type=ctype, keys=keys, desc=desc, diff=diff, meter=meter, radar=radar, measures=meas))
         if rng.random() < 0.7:
             lines.append(f"//---------------{ctype} - {desc}----------------")
